@@ -35,11 +35,11 @@ const maxTasks = 16
 // SchedCfg selects the exploration policy of one run.
 type SchedCfg struct {
 	Seed         uint64  `json:"seed"`
-	Mode         string  `json:"mode"`          // "random" | "pct"
-	StayPermille int     `json:"stay_permille"` // random mode: probability (‰) of not switching
-	PCTDepth     int     `json:"pct_depth"`     // pct mode: number of priority change points
-	PCTSteps     int     `json:"pct_steps"`     // pct mode: estimated number of decisions
-	MaxDecisions int     `json:"max_decisions"` // hand-off bound
+	Mode         string  `json:"mode"`                 // "random" | "pct"
+	StayPermille int     `json:"stay_permille"`        // random mode: probability (‰) of not switching
+	PCTDepth     int     `json:"pct_depth"`            // pct mode: number of priority change points
+	PCTSteps     int     `json:"pct_steps"`            // pct mode: estimated number of decisions
+	MaxDecisions int     `json:"max_decisions"`        // hand-off bound
 	StepYield    int     `json:"step_yield,omitempty"` // >0: every n-th function entry of package spec is a scheduling point too
 	Replay       []int32 `json:"replay,omitempty"`
 }
